@@ -175,6 +175,12 @@ def wellformed(ent):
                 continue
             if not isinstance(val, str) or not _NUM.match(val):
                 return ('duration-value-malformed', val)
+            # a duration TIMEX made only of weeks / days / hours / minutes / seconds is fully definite: the value is its seconds
+            pd = parse_duration(tx or '') if 'Mod' not in v else None
+            if pd and not pd['years'] and not pd['months']:
+                exp = pd['days'] * 86400 + pd['seconds']
+                if abs(float(val) - exp) > 1e-6 * max(1.0, abs(exp)):
+                    return ('duration-seconds-differ-from-timex', '%s: %s (timex says %s)' % (tx, val, exp))
         elif typ in ('daterange', 'timerange', 'datetimerange'):
             kind = {'daterange': 'date', 'timerange': 'time', 'datetimerange': 'datetime'}[typ]
             st, en = v.get('start'), v.get('end')
